@@ -8,7 +8,9 @@
    The values are the exact lattice values the driver generated (never rounded observations).  A record is
      MALFORMED  if it is not a case of the specification               (machinery: the driver is wrong)
      UNGUARDED  if some sample is neither in the class nor 1000 tolerances away from it   (skipped, counted)
-     rejected   if the observation matches none of the outcomes Comparers!Allowed permits (a violation).        *)
+     rejected   if the observation matches none of the outcomes Comparers!Allowed permits (a violation); the clause
+                names the allowed outcomes and, when the observation is what the implementation-shaped model
+                predicts, the deviation class that explains it.                                                   *)
 EXTENDS Comparers, Json, IOUtils
 Trace == ndJsonDeserialize(IOEnv.TRACE_FILE)
 VARIABLE l
@@ -26,7 +28,8 @@ Verdict(i) == LET r == Trace[i]   k == CaseOf(r) IN
               IF ~WellFormedCase(k) THEN PrintT(<<"REJECT", r.id, "MALFORMED">>)
               ELSE IF ~GuardOK(k) THEN PrintT(<<"REJECT", r.id, "UNGUARDED">>)
               ELSE IF \E a \in Allowed(k) : Matches(r.obs, a) THEN TRUE
-              ELSE PrintT(<<"REJECT", r.id, Summary(Allowed(k))>>)
+              ELSE PrintT(<<"REJECT", r.id, Summary(Allowed(k)) \o " | " \o
+                                            (IF Matches(r.obs, ImplOutcome(k)) THEN DeviationClass(k) ELSE "none")>>)
 Init == l = 0
 Next == /\ l < Len(Trace)
         /\ l' = l + 1
